@@ -3,3 +3,20 @@ open ZnVerif.Properties.C04
 #print axioms idRange_sortedDisjoint
 #print axioms binsearch_eq_linear
 #print axioms idInRange_is_membership
+#print axioms numberDFA_chars_ascii
+#print axioms numberDFA_states_small
+#print axioms numberDFA_is_specStep
+#print axioms number_form
+#print axioms starts_like_number_rejected
+#print axioms otherwise_name
+#print axioms numFormB_iff
+#print axioms startsLikeNumberB_iff
+#print axioms classify_eq_model
+#print axioms number_text_for_ParseFloat
+#print axioms keyword_first_glyphs_distinct
+#print axioms keyword_alternatives_exclusive
+#print axioms keyword_match_unique
+#print axioms keyword_order_irrelevant
+#print axioms keyword_wordlen_consistent
+#print axioms keyword_types_documented
+#print axioms keyword_documented_functional
